@@ -294,16 +294,16 @@ end
 theorem mem_defActions {d : StateDef} {n : String} :
     n ∈ defActions d ↔
       (∃ a ∈ mainActs d, a.type = n ∧ isSpawn n = false ∧ isBuiltin n = false)
-      ∨ (∃ t ∈ invTrans d, ∃ a ∈ t.actions, a.type = n ∧ isBuiltin n = false) := by
-  unfold defActions
+      ∨ (∃ t ∈ invTrans d, ∃ a ∈ t.actions, a.type = n ∧ isSpawn n = false ∧ isBuiltin n = false) := by
+  unfold defActions invActs
   simp only [List.mem_append, List.mem_map, List.mem_filter, List.mem_flatMap, Bool.and_eq_true, Bool.not_eq_true']
   constructor
-  · rintro (⟨a, ⟨ha, h1, h2⟩, rfl⟩ | ⟨a, ⟨⟨t, ht, ha⟩, hb⟩, rfl⟩)
+  · rintro (⟨a, ⟨ha, h1, h2⟩, rfl⟩ | ⟨a, ⟨⟨t, ht, ha⟩, h1, h2⟩, rfl⟩)
     · exact Or.inl ⟨a, ha, rfl, h1, h2⟩
-    · exact Or.inr ⟨t, ht, a, ha, rfl, hb⟩
-  · rintro (⟨a, ha, rfl, h1, h2⟩ | ⟨t, ht, a, ha, rfl, hb⟩)
+    · exact Or.inr ⟨t, ht, a, ha, rfl, h1, h2⟩
+  · rintro (⟨a, ha, rfl, h1, h2⟩ | ⟨t, ht, a, ha, rfl, h1, h2⟩)
     · exact Or.inl ⟨a, ⟨ha, h1, h2⟩, rfl⟩
-    · exact Or.inr ⟨a, ⟨⟨t, ht, ha⟩, hb⟩, rfl⟩
+    · exact Or.inr ⟨a, ⟨⟨t, ht, ha⟩, h1, h2⟩, rfl⟩
 
 theorem mem_defGuards {d : StateDef} {n : String} :
     n ∈ defGuards d ↔ ∃ t ∈ mainTrans d ++ invTrans d, ∃ g, t.guard = some g ∧ NamedLeaf n g := by
@@ -325,13 +325,14 @@ theorem mem_defGuards {d : StateDef} {n : String} :
 theorem mem_defServices {d : StateDef} {n : String} :
     n ∈ defServices d ↔
       (∃ a ∈ mainActs d, isSpawn a.type = true ∧ spawnKey a.type = n)
-      ∨ (∃ i ∈ d.invoke, i.src = some n ∧ n ≠ "") := by
-  unfold defServices invokeSrcs
-  simp only [List.mem_append, List.mem_map, List.mem_filter, List.mem_filterMap]
+      ∨ (∃ i ∈ d.invoke, i.src = some n ∧ n ≠ "")
+      ∨ (∃ t ∈ invTrans d, ∃ a ∈ t.actions, isSpawn a.type = true ∧ spawnKey a.type = n) := by
+  unfold defServices invokeSrcs invActs
+  simp only [List.mem_append, List.mem_map, List.mem_filter, List.mem_filterMap, List.mem_flatMap, or_assoc]
   constructor
-  · rintro (⟨a, ⟨ha, hs⟩, rfl⟩ | ⟨i, hi, h⟩)
+  · rintro (⟨a, ⟨ha, hs⟩, rfl⟩ | ⟨i, hi, h⟩ | ⟨a, ⟨⟨t, ht, ha⟩, hs⟩, rfl⟩)
     · exact Or.inl ⟨a, ha, hs, rfl⟩
-    · right
+    · right; left
       refine ⟨i, hi, ?_⟩
       split at h
       · rename_i s hs
@@ -341,11 +342,13 @@ theorem mem_defServices {d : StateDef} {n : String} :
           cases h
           exact ⟨hs, hne⟩
       · cases h
-  · rintro (⟨a, ha, hs, rfl⟩ | ⟨i, hi, hs, hne⟩)
+    · exact Or.inr (Or.inr ⟨t, ht, a, ha, hs, rfl⟩)
+  · rintro (⟨a, ha, hs, rfl⟩ | ⟨i, hi, hs, hne⟩ | ⟨t, ht, a, ha, hs, rfl⟩)
     · exact Or.inl ⟨a, ⟨ha, hs⟩, rfl⟩
-    · right
+    · right; left
       refine ⟨i, hi, ?_⟩
       simp [hs, hne]
+    · exact Or.inr (Or.inr ⟨a, ⟨⟨t, ht, ha⟩, hs⟩, rfl⟩)
 
 theorem mem_required_actions {m : Machine} {n : String} :
     n ∈ (required m).actions ↔ ∃ d ∈ subDefs m.root, n ∈ defActions d := by
